@@ -166,3 +166,142 @@ Proof.
               unfold authenticate_gen, verify_token. rewrite Hsup, Hobj, Hkid. simpl.
               assert (get_key (with_remote (s_cf s) RUp) ks (t_kid t) = None) as -> by exact Hg. reflexivity.
 Qed.
+
+(* ------------------------------------------------------------------ histories *)
+
+Lemma run_c_stateless f1 f2 v : forall h c past,
+  (forall s, In s h -> cf_validate_jwk (s_cf s) = v) ->
+  cache_inv v past c ->
+  forall pre s post, h = pre ++ s :: post ->
+  forall r, nth_error (fst (run_c f1 f2 h c)) (length pre) = Some r ->
+  exists env, (In env (s_env s :: map s_env pre) \/ In env past) /\ (fresh s = true -> env = s_env s) /\
+              r = stateless f1 f2 s env.
+Proof.
+  induction h as [|s0 h IH]; intros c past Hv Hinv pre s post E r Hr.
+  - destruct pre; discriminate.
+  - simpl in Hr.
+    pose proof (step_c_stateless f1 f2 v s0 c past (Hv s0 (or_introl eq_refl)) Hinv) as St.
+    destruct (step_c f1 f2 s0 c) as [x c'] eqn:Es. destruct St as [Hinv' (env & Hin & Hfr & Hx)].
+    destruct (run_c f1 f2 h c') as [xs c''] eqn:Er. simpl in Hr.
+    destruct pre as [|p pre]; simpl in *.
+    + injection E as -> ->. injection Hr as <-. exists env. split; [|split; assumption].
+      destruct Hin as [<-|Hin]; [left; left; reflexivity | right; exact Hin].
+    + injection E as -> ->.
+      assert (nth_error (fst (run_c f1 f2 (pre ++ s :: post) c')) (length pre) = Some r) as Hr' by (rewrite Er; exact Hr).
+      destruct (IH c' (s_env p :: past) (fun s' H => Hv s' (or_intror H)) Hinv' pre s post eq_refl r Hr')
+        as (env' & Hin' & Hfr' & Hr'').
+      exists env'. split; [|split; assumption].
+      destruct Hin' as [[<-|Hin']|[<-|Hin']].
+      * left; left; reflexivity.
+      * left; right; right; exact Hin'.
+      * left; right; left; reflexivity.
+      * right; exact Hin'.
+Qed.
+
+(** the worlds request number [length pre] of a history may be judged against *)
+Definition worlds (pre : list kstep) (s : kstep) : list kenv := s_env s :: map s_env pre.
+
+(** MAIN: every answer of a history is the cache-less authenticator's answer against the key set that is
+    or was published at the rendered key-set URL of the request's OWN token (so a key cached for one
+    url/kid is never used for another), the present one if the request cannot be served from the cache *)
+Theorem history_stateless f1 f2 v h pre s post r :
+  (forall s', In s' h -> cf_validate_jwk (s_cf s') = v) ->
+  h = pre ++ s :: post ->
+  nth_error (run_history f1 f2 h) (length pre) = Some r ->
+  exists env, In env (worlds pre s) /\ (fresh s = true -> env = s_env s) /\ r = stateless f1 f2 s env.
+Proof.
+  intros Hv E Hr. unfold run_history in Hr.
+  assert (cache_inv v [] []) as Hinv by (intros url kid k H; discriminate).
+  destruct (run_c_stateless f1 f2 v h [] [] Hv Hinv pre s post E r Hr) as (env & [Hin|[]] & Hfr & Hx).
+  exists env. split; [exact Hin|]. split; assumption.
+Qed.
+
+(** with key sets that do not change the cache is invisible *)
+Theorem cache_transparent f1 f2 v h pre s post r env0 :
+  (forall s', In s' h -> cf_validate_jwk (s_cf s') = v) ->
+  (forall s', In s' h -> s_env s' = env0) ->
+  h = pre ++ s :: post ->
+  nth_error (run_history f1 f2 h) (length pre) = Some r ->
+  r = stateless f1 f2 s env0.
+Proof.
+  intros Hv He E Hr. destruct (history_stateless f1 f2 v h pre s post r Hv E Hr) as (env & Hin & _ & ->).
+  f_equal. destruct Hin as [<-|Hin].
+  - apply He. subst h. apply in_or_app. right. left. reflexivity.
+  - apply in_map_iff in Hin as (s' & <- & Hs'). apply He. subst h. apply in_or_app. left. exact Hs'.
+Qed.
+
+(* ------------------------------------------------------------------ against the specification *)
+
+(** the stateless specification of C05/Spec.v for request [s] in world [env] *)
+Definition spec_in (s : kstep) (env : kenv) : option string :=
+  let '(rem, ks) := published s env in
+  spec_accepts (with_remote (s_cf s) rem) ks (s_now s) (s_cred s).
+
+Lemma stateless_spec s env :
+  sane_clock (s_cf s) (s_now s) -> guard_F3 (s_cred s) = false ->
+  accepted_sub (stateless true true s env) = spec_in s env.
+Proof.
+  intros Hs G. unfold stateless, spec_in. destruct (published s env) as [rem ks].
+  apply (authenticate_spec (with_remote (s_cf s) rem) ks (s_now s) (s_cred s)); assumption.
+Qed.
+
+(** soundness and completeness of a history: a subject is created only if the specification accepts the
+    token against what is or was published at its own key-set URL (now, if it cannot come from the cache),
+    and it is created if the specification accepts it against all of those *)
+Theorem history_spec v h pre s post r :
+  (forall s', In s' h -> cf_validate_jwk (s_cf s') = v) ->
+  h = pre ++ s :: post ->
+  nth_error (run_history true true h) (length pre) = Some r ->
+  sane_clock (s_cf s) (s_now s) -> guard_F3 (s_cred s) = false ->
+  (forall sub, r = Accepted sub ->
+     exists env, In env (worlds pre s) /\ (fresh s = true -> env = s_env s) /\ spec_in s env = Some sub) /\
+  (forall sub, (forall env, In env (worlds pre s) -> spec_in s env = Some sub) -> r = Accepted sub).
+Proof.
+  intros Hv E Hr Hs G.
+  destruct (history_stateless true true v h pre s post r Hv E Hr) as (env & Hin & Hfr & ->). split.
+  - intros sub Hacc. exists env. split; [exact Hin|]. split; [exact Hfr|].
+    rewrite <- stateless_spec by assumption. rewrite Hacc. reflexivity.
+  - intros sub Hall. specialize (Hall env Hin). rewrite <- stateless_spec in Hall by assumption.
+    destruct (stateless true true s env); simpl in Hall; congruence.
+Qed.
+
+(* ------------------------------------------------------------------ examples *)
+
+Open Scope string_scope.
+Definition exc_cf : config :=
+  {| cf_proto := {| e_issuers := ["tenant-a"; "tenant-b"]; e_scopes := None; e_aud := []; e_algs := []; e_leeway := 0 |};
+     cf_rule := None; cf_md_issuer := ""; cf_validate_jwk := true; cf_id_from := "sub"; cf_remote := RUp |}.
+Definition exc_key (mat : N) : jwk := {| k_kid := "k1"; k_alg := "ES256"; k_mat := mat; k_cert := CertNone |}.
+Definition exc_env (a b : N) : kenv := [("tenant-a", (RUp, [exc_key a])); ("tenant-b", (RUp, [exc_key b]))].
+Definition exc_tok (iss kid : string) (mat : N) : cred :=
+  CToken {| t_alg := "ES256"; t_kid := kid; t_payload_obj := true;
+            t_claims := {| c_iss := iss; c_aud := SAbsent; c_scp := SAbsent; c_scope := SAbsent;
+                           c_exp := Some 1790000600%Z; c_nbf := None; c_iat := None; c_malformed := false;
+                           c_fields := [("iss", iss); ("sub", "alice")] |};
+            t_sig := [mat] |}.
+Definition exc_step (on : bool) (env : kenv) (cr : cred) : kstep :=
+  {| s_cf := exc_cf; s_cache_on := on; s_templated := true; s_env := env; s_now := secs 1790000000; s_cred := cr |}.
+Close Scope string_scope.
+
+(** two tenants publish different keys under the same kid behind one templated endpoint: after tenant-a's key
+    has been cached, a token naming tenant-b but signed with tenant-a's key is still rejected, and tenant-b's
+    own tokens are still accepted (the seeded change C05-1 got both wrong) *)
+Example cache_cross_tenant :
+  run_history true true
+    [exc_step true (exc_env 3 4) (exc_tok "tenant-a" "k1" 3);
+     exc_step true (exc_env 3 4) (exc_tok "tenant-b" "k1" 3);
+     exc_step true (exc_env 3 4) (exc_tok "tenant-b" "k1" 4)]
+  = [Accepted "alice"; Failed ESignature; Accepted "alice"].
+Proof. vm_compute. reflexivity. Qed.
+
+(** what the cache does change: after a rotation the cached key stays in use for its own url and kid (the old
+    key's tokens pass, the new key's do not yet) unless the token has no kid or the cache is off *)
+Example cache_rotation :
+  run_history true true
+    [exc_step true (exc_env 3 4) (exc_tok "tenant-a" "k1" 3);
+     exc_step true (exc_env 4 4) (exc_tok "tenant-a" "k1" 3);
+     exc_step true (exc_env 4 4) (exc_tok "tenant-a" "k1" 4);
+     exc_step true (exc_env 4 4) (exc_tok "tenant-a" "" 4);
+     exc_step false (exc_env 4 4) (exc_tok "tenant-a" "k1" 4)]
+  = [Accepted "alice"; Accepted "alice"; Failed ESignature; Accepted "alice"; Accepted "alice"].
+Proof. vm_compute. reflexivity. Qed.
